@@ -122,6 +122,24 @@ def evaluate(case):
 
 
 def check_case(case):
+    if case.get("env_tz") and os.environ.get("TZ") != case["env_tz"]:
+        # a TIMEZONE='local' case belongs to a process whose TZ is that zone (replays and regression cases arrive here in the
+        # ordinary TZ=UTC process): evaluate it in a child interpreter started with that TZ
+        env = dict(os.environ)
+        env["TZ"] = case["env_tz"]
+        env["PYTHONPATH"] = "%s:%s" % (REPO, VERIF)
+        p = subprocess.run([sys.executable, "-c", "from checks import c12; c12._child_main()"], input=json.dumps([case]).encode(),
+                           capture_output=True, env=env, cwd=VERIF, timeout=600)
+        if p.returncode != 0:
+            from vlib.runner import HarnessError
+            raise HarnessError("child for TZ=%s failed: %s" % (case["env_tz"], p.stderr.decode()[-800:]))
+        ok, bucket, detail, skip, cls, key = json.loads(p.stdout)[0]
+        r = {"ok": ok, "cls": cls, "key": key}
+        if not ok:
+            r.update(bucket="local:" + bucket, detail=detail)
+        if skip:
+            r["skip"] = skip
+        return r
     kind = case["kind"]
     cls = ["kind:" + kind, "aware:" + ("unset" if case["aware"] is None else str(case["aware"]))]
     if case["own"]:
